@@ -1309,22 +1309,42 @@ func (e *Engine) mapUpdate(m *MapV, k, v Value, st *State) {
 		mc := st.heap[ma.O].(*MapC)
 		nc := &MapC{Ents: make([]MEnt, len(mc.Ents))}
 		any := FalseT
+		same := -1 // a slot whose key is syntactically the inserted key can be reused
+		hits := make([]*Term, len(mc.Ents))
 		for i, en := range mc.Ents {
 			hit := And(en.P, keyEq(en.K, k))
+			hits[i] = hit
 			nc.Ents[i] = en
-			if hit != FalseT {
-				nc.Ents[i].V = mergeV(st, And(ma.G, hit), v, en.V)
-				any = Or(any, hit)
+			any = Or(any, hit)
+			if same < 0 && sameKey(en.K, k) {
+				same = i
 			}
 		}
-		if p := And(ma.G, Not(any)); p != FalseT {
-			nc.Ents = append(nc.Ents, MEnt{P: p, K: k, V: v})
+		fresh := And(ma.G, Not(any)) // the key is new: it needs a slot
+		for i, en := range mc.Ents {
+			w := And(ma.G, hits[i])
+			if i == same {
+				w = Or(w, fresh)
+				nc.Ents[i].P = Or(en.P, fresh)
+			}
+			if w != FalseT {
+				nc.Ents[i].V = mergeV(st, w, v, en.V)
+			}
+		}
+		if same < 0 && fresh != FalseT {
+			nc.Ents = append(nc.Ents, MEnt{P: fresh, K: k, V: v})
 		}
 		st.heap[ma.O] = nc
 	}
 	if nonnil == 0 {
 		st.pc = FalseT
 	}
+}
+
+func sameKey(a, b Value) bool {
+	x, ok1 := a.(*Term)
+	y, ok2 := b.(*Term)
+	return ok1 && ok2 && x == y
 }
 
 func (e *Engine) mapDelete(m *MapV, k Value, st *State) {
